@@ -946,6 +946,73 @@ def execute_readonly(desc, ctx):
         shutil.rmtree(tmp, ignore_errors=True)
 
 
+# ---------------------------------------------------------------------------------------------- big directories
+
+def bigdir_strategy(tier: str):
+    """Archives whose directory tree is larger than any I/O buffer (hundreds to thousands of entries)."""
+    return st.fixed_dictionaries({
+        'single': st.booleans(),
+        'n': st.sampled_from([150, 400, 900, 1700, 2600] if tier == 'quick' else [150, 400, 900, 1700, 2600, 5000]),
+        'folders': st.integers(1, 40),
+        'exts': st.integers(1, 6),
+        'pad': st.integers(0, 24),          # shifts where strings fall relative to 4 KiB / 8 KiB boundaries
+        'limit': st.sampled_from([0, 3, 1024]),
+        'arch': st.sampled_from([0, 1, None]),
+        'del_every': st.sampled_from([0, 0, 3, 7]),
+        'over_every': st.sampled_from([0, 0, 5]),
+    })
+
+
+def execute_bigdir(desc, ctx):
+    from srctools.vpk import VPK
+    tmp = tempfile.mkdtemp(prefix='verif_c13_')
+    try:
+        path = os.path.join(tmp, 'x.vpk' if desc['single'] else 'x_dir.vpk')
+        model = {}
+        pad = 'p' * desc['pad']
+        with VPK(path, mode='w', dir_data_limit=desc['limit']) as vpk:
+            for i in range(desc['n']):
+                folder = f'f{i % desc["folders"]}{pad}' if i % 11 else ''
+                stem, ext = f'n{i}{pad[:i % 5]}', f'e{i % desc["exts"]}'
+                data = expand([i % 9, i])
+                vpk.add_file((folder, stem, ext), data, arch_index=desc['arch'])
+                model[folder, stem, ext] = data
+            keys = list(model)
+            if desc['over_every']:
+                for key in keys[::desc['over_every']]:
+                    data = expand([5 + len(key[1]) % 4, len(key[1])])
+                    vpk[key].write(data, desc['arch'])
+                    model[key] = data
+            if desc['del_every']:
+                for key in keys[1::desc['del_every']]:
+                    del vpk[key]
+                    del model[key]
+        ctx.label(f'n:{desc["n"]}', 'single' if desc['single'] else 'dir')
+        tree_size = os.path.getsize(path)
+        ctx.label('dirfile>8k' if tree_size > 8192 else 'dirfile<=8k')
+        ctx.nontrivial(tree_size > 8192)
+        where = f'[bigdir {desc}]'
+        fresh = VPK(path, mode='r')
+        got_names = sorted(fresh.filenames())
+        want_names = sorted(vpkref.join_name(*k) for k in model)
+        if not ctx.check(got_names == want_names, 'listing',
+                         f'{where} reopened archive lists {len(got_names)} names, model has {len(want_names)}; '
+                         f'first difference: {next(((a, b) for a, b in zip(got_names, want_names) if a != b), None)}'):
+            return
+        ctx.check(len(fresh) == len(model), 'listing', f'{where} len() = {len(fresh)}, model {len(model)}')
+        for key, data in model.items():
+            got = fresh[key].read()
+            if got != data:
+                ctx.fail('readback', f'{where} {vpkref.join_name(*key)!r} reads {short(got)}, last written {short(data)}')
+                return
+        ctx.check(fresh.verify_all(), 'verify', f'{where} verify_all() failed')
+        decoded = vpkref.read_vpk_keys(path)
+        ctx.check(decoded == model, 'independent_decoder', f'{where} independent decoder recovers {len(decoded)} files, '
+                  f'model has {len(model)} (or contents differ)')
+    finally:
+        shutil.rmtree(tmp, ignore_errors=True)
+
+
 SUBCHECKS = [
     Sub('placement', execute_placement, strategy=placement_strategy, quick=1600, thorough=40000, floor=50,
         quick_shards=8, thorough_shards=16,
@@ -966,6 +1033,8 @@ SUBCHECKS = [
         must_hit=('fail:duplicate', 'fail:del_missing', 'fail:nonascii', 'fail:blocked_add', 'fail:blocked_over')),
     Sub('collide', execute_collide, strategy=collide_strategy, quick=400, thorough=8000, floor=30,
         quick_shards=2, thorough_shards=8, must_hit=('collide:over', 'collide:crc_of_empty')),
+    Sub('bigdir', execute_bigdir, strategy=bigdir_strategy, quick=48, thorough=1600, floor=10,
+        quick_shards=8, thorough_shards=16, must_hit=('dirfile>8k', 'single', 'dir')),
 ]
 
 MATCHERS = {}
